@@ -565,16 +565,22 @@ template <class Archive>
 RCP<const Basic> load_basic(Archive &ar, RCP<const Interval> &)
 {
     RCP<const Number> start, end;
-    bool left_open, right_open;
+    // read the flags as bytes: any value other than 0 or 1 is not a bool
+    uint8_t left_open, right_open;
     ar(left_open, start, right_open, end);
-    return make_rcp<const Interval>(start, end, left_open, right_open);
+    if (left_open > 1 or right_open > 1)
+        throw SerializationError("Invalid boolean value in serialized data");
+    return make_rcp<const Interval>(start, end, left_open == 1,
+                                    right_open == 1);
 }
 template <class Archive>
 RCP<const Basic> load_basic(Archive &ar, RCP<const BooleanAtom> &)
 {
-    bool val;
+    uint8_t val;
     ar(val);
-    return boolean(val);
+    if (val > 1)
+        throw SerializationError("Invalid boolean value in serialized data");
+    return boolean(val == 1);
 }
 template <class Archive>
 RCP<const Basic> load_basic(Archive &ar, RCP<const And> &)
